@@ -486,6 +486,9 @@ struct timespec* sentTime) {
       }
       setState(m_state, RESULT_ERR_BUS_LOST);  // try again later
     }
+    if (!isMaster(recvSymbol)) {
+      return setState(bs_skip, RESULT_ERR_INVALID_ADDR);
+    }
     m_command.push_back(recvSymbol);
     m_repeat = false;
     return setState(bs_recvCmd, result);
